@@ -28,15 +28,22 @@ def parseReq : SExp → Option Req
   | .list [.atom "D", f, a, b] => do pure (.teardown (← f.bool?) (← a.bool?) (← b.bool?))
   | _ => none
 
+def parsePReq : SExp → Option PReq
+  | .list [.atom "P", a, b] => do pure (.par (← parseReq a) (← parseReq b))
+  | q => (parseReq q).map .one
+
 structure Input where
   hooks : List Hook
-  reqs : List Req
+  preqs : List PReq          -- as given: single requests and overlapping pairs `(P q1 q2)`
   nTasks : Nat
+
+/-- The requests in the order in which they get the mutex. -/
+def Input.reqs (i : Input) : List Req := (i.preqs.map PReq.flat).flatten
 
 def parseInput (s : String) : Option Input :=
   match SExp.parse s with
   | some (.list [.list hs, .list qs, n]) => do
-    pure { hooks := ← hs.mapM? parseHook, reqs := ← qs.mapM? parseReq, nTasks := ← n.nat? }
+    pure { hooks := ← hs.mapM? parseHook, preqs := ← qs.mapM? parsePReq, nTasks := ← n.nat? }
   | _ => none
 
 def parseTV : SExp → Option TV
@@ -102,7 +109,7 @@ def processWith (spec : Input → ITrace → Bool × String) (line : String) : S
         -- a panic or an unparsable trace is never accepted
         "REJECT:unparsable-trace\t0\t-"
       | some tr =>
-        let verdict := match monitor i.hooks i.nTasks i.reqs tr with
+        let verdict := match monitorPar i.hooks i.nTasks i.preqs tr with
           | none => "ACCEPT"
           | some why => "REJECT:" ++ (why.replace "\t" " ").replace "\n" " "
         let (ok, hyp) := spec i tr
